@@ -238,3 +238,76 @@ def cleanup_programs():
                     L += ["try:", "    print('r', f(0))", "except KeyError:", "    print('exc KeyError')"]
                     out.append(("\n".join(L) + "\n", dict(abrupt=ab, cleanup=ci, wrap=wrap, loop=loop)))
     return out
+
+# ---------------------------------------------------------------- scope trees (C03)
+def scope_programs(seed, n):
+    """random nestings of module/def/class/lambda/comprehension scopes with bind/use/global/
+    nonlocal/del placements of names a, b; every use prints a label and the value or the
+    exception class; some programs are invalid (SyntaxError expected)."""
+    rnd = random.Random(seed * 104729 + 11)
+    out = []
+    for k in range(n):
+        out.append(_scope_prog(rnd))
+    return out
+
+def _scope_prog(rnd):
+    ctr = [0]
+    def lab():
+        ctr[0] += 1; return "L%d" % ctr[0]
+    def use(name, ind):
+        p = "    " * ind; l = lab()
+        return [p + "try:", p + "    print('%s', %s)" % (l, name), p + "except UnboundLocalError:", p + "    print('%s UnboundLocalError')" % l,
+                p + "except NameError:", p + "    print('%s NameError')" % l]
+    def body(kind, depth, ind, enclosing_func):
+        """statements of a def (kind 'def') or class (kind 'class') or module body"""
+        p = "    " * ind; L = []
+        decl = []
+        for nm in ("a", "b"):
+            r = rnd.random()
+            if kind != "module" and r < 0.12: decl.append(p + "global " + nm)
+            elif kind != "module" and enclosing_func and r < 0.24: decl.append(p + "nonlocal " + nm)
+            elif kind != "module" and r < 0.27: decl.append(p + "nonlocal " + nm)      # often invalid
+        rnd.shuffle(decl)
+        pre_use = rnd.random() < 0.25
+        if pre_use and not decl: L += use(rnd.choice("ab"), ind)
+        L += decl
+        nops = rnd.randint(1, 4)
+        for _ in range(nops):
+            op = rnd.random(); nm = rnd.choice("ab")
+            if op < 0.35:
+                ctr[0] += 1; L.append(p + "%s = 'v%d'" % (nm, ctr[0]))
+            elif op < 0.65:
+                L += use(nm, ind)
+            elif op < 0.72:
+                L += [p + "try:", p + "    del " + nm, p + "except NameError:", p + "    print('del NameError')"]
+            elif depth > 0:
+                L += child(depth - 1, ind, enclosing_func or kind == "def")
+            else:
+                L += use(nm, ind)
+        if rnd.random() < 0.15 and decl == []:
+            L.append(p + "global " + rnd.choice("ab"))           # declaration after use/assignment: SyntaxError (3.4: warning) - both must agree
+        return L
+    def child(depth, ind, enclosing_func):
+        p = "    " * ind; ctr[0] += 1; n = ctr[0]
+        kind = rnd.choice(["def", "def", "class", "lambda", "comp", "defparam"])
+        if kind == "def":
+            return [p + "def f%d():" % n] + body("def", depth, ind + 1, enclosing_func) + [p + "f%d()" % n]
+        if kind == "defparam":
+            nm = rnd.choice("ab")
+            dflt = rnd.choice(["", "=a", "=b"])
+            return [p + "try:", p + "    def g%d(%s%s):" % (n, nm, dflt)] + ["    " + l for l in body("def", depth, ind + 1, enclosing_func)] + \
+                   [p + "    g%d(%s)" % (n, "" if dflt else "'arg%d'" % n), p + "except NameError:", p + "    print('defaults NameError')"]
+        if kind == "class":
+            return [p + "class C%d:" % n] + body("class", depth, ind + 1, enclosing_func) + \
+                   [p + "    def m(self):"] + use(rnd.choice("ab"), ind + 2) + [p + "C%d().m()" % n]
+        if kind == "lambda":
+            nm = rnd.choice("ab")
+            return [p + "try:", p + "    print('lam', (lambda: %s)())" % nm, p + "except NameError:", p + "    print('lam NameError')"]
+        nm = rnd.choice("ab"); other = "b" if nm == "a" else "a"
+        return [p + "try:", p + "    print('comp', [%s for %s in range(2)], [(%s, q) for q in range(1)])" % (nm, nm, other), p + "except NameError:", p + "    print('comp NameError')"]
+    L = []
+    if rnd.random() < 0.7: L.append("a = 'ga'")
+    if rnd.random() < 0.5: L.append("b = 'gb'")
+    L += body("module", 3, 0, False)
+    L += use("a", 0) + use("b", 0)
+    return "\n".join(L) + "\n"
